@@ -755,3 +755,141 @@ pub fn merge(ev: &mut Evidence, problems: Vec<(String, String)>, what: &str) {
         ev.violation(sig, text, json!({"leg": what}));
     }
 }
+
+/// The 3.5-character silence the serial client keeps before it transmits is the library's own
+/// business: it must not eat into a request's response timeout (C12: the timeout runs from
+/// transmission), must not be reported as an I/O error that closes the port, and whatever arrives
+/// during it arrives while no request is outstanding (C11: dropped, never a result).
+/// `scenario` 0: short timeouts against a peer that answers at once (1200 baud, gap 32 ms);
+/// 1: a late reply to a timed-out request delivered inside the gap of the next one (300 baud, 128 ms).
+pub async fn serial_gap(scenario: usize, k: usize, ev: &mut Evidence) -> Vec<(String, String)> {
+    let mut problems = vec![];
+    let Some(pty) = Pty::open() else {
+        ev.count("pty_unavailable", 1);
+        return problems;
+    };
+    let pty = Arc::new(pty);
+    let baud = if scenario == 0 { 1200 } else { 300 };
+    let (tx, mut rx) = mpsc::unbounded_channel();
+    let (mut channel, task) = create_rtu_client_task(
+        &pty.slave_path,
+        SerialSettings { baud_rate: baud, ..Default::default() },
+        8,
+        doubling_retry_strategy(Duration::from_millis(200), Duration::from_millis(200)),
+        DecodeLevel::nothing(),
+        Some(Box::new(PortGate { tx })),
+    );
+    let jh = tokio::spawn(task.run());
+    let _ = channel.enable().await;
+    let mut seen: Vec<&'static str> = vec![];
+    if next_port_state(&mut rx, "Open", Duration::from_secs(3), &mut seen).await.is_none() {
+        ev.inconclusive("serial gap leg: the port never opened");
+        return problems;
+    }
+    ev.count("serial_gap_scenarios", 1);
+    ev.class(format!("serial_gap|scenario{scenario}|baud={baud}"));
+    let stop = Arc::new(std::sync::atomic::AtomicBool::new(false));
+    let range = AddressRange::try_from(0, 1).unwrap();
+    if scenario == 0 {
+        // the peer answers every complete request (8 bytes) at once, with the request's position as value
+        let (p2, stop2) = (pty.clone(), stop.clone());
+        let peer = std::thread::spawn(move || {
+            let mut got = vec![];
+            let mut answered = 0u16;
+            let mut buf = [0u8; 256];
+            while !stop2.load(std::sync::atomic::Ordering::SeqCst) {
+                let n = unsafe { libc::read(p2.master, buf.as_mut_ptr() as *mut libc::c_void, buf.len()) };
+                if n > 0 {
+                    got.extend_from_slice(&buf[..n as usize]);
+                    while got.len() >= 8 * (answered as usize + 1) {
+                        answered += 1;
+                        p2.write(&rtu_frame(1, &[3, 2, (answered >> 8) as u8, answered as u8]));
+                    }
+                } else {
+                    std::thread::sleep(Duration::from_micros(200));
+                }
+            }
+            answered
+        });
+        let timeout = Duration::from_millis([5u64, 10, 20][k % 3]);
+        let n = 5usize;
+        let mut results = vec![];
+        for _ in 0..n {
+            results.push(channel.read_holding_registers(RequestParam::new(UnitId::new(1), timeout), range).await);
+        }
+        tokio::time::sleep(Duration::from_millis(100)).await;
+        stop.store(true, std::sync::atomic::Ordering::SeqCst);
+        let answered = peer.join().unwrap_or(0);
+        while let Ok((s, _)) = rx.try_recv() {
+            seen.push(port_name(&s));
+        }
+        ev.class(format!("serial_gap|scenario0|timeout={}ms|transmitted={answered}", timeout.as_millis()));
+        for (i, r) in results.iter().enumerate() {
+            ev.count("serial_gap_requests", 1);
+            match r {
+                Ok(_) | Err(RequestError::ResponseTimeout) => {}
+                Err(e) => {
+                    problems.push((
+                        format!("serial_gap:request_failed:{}", format!("{e:?}").split('(').next().unwrap()),
+                        format!("request #{i} of {n} back-to-back requests (timeout {timeout:?}, 1200 baud: 32 ms of silence between frames) to a peer that answers at once failed with {e:?}; results {results:?}; port states {seen:?}"),
+                    ));
+                    break; // what follows is a consequence
+                }
+            }
+        }
+        if answered as usize != n {
+            problems.push(("serial_gap:request_not_transmitted".into(), format!("{n} requests were submitted (timeout {timeout:?}), {answered} reached the peer; results {results:?}; port states {seen:?}")));
+        }
+        if seen.iter().any(|s| *s == "Wait") {
+            problems.push(("serial_gap:port_closed".into(), format!("the port was closed although no I/O failed; port states {seen:?}; results {results:?}")));
+        }
+    } else {
+        // request 1 times out; its reply comes late, while request 2 waits for the line to be silent
+        let (p2, stop2) = (pty.clone(), stop.clone());
+        let peer = std::thread::spawn(move || {
+            // returns (bytes of request 2 present when the late reply was written, total bytes received)
+            let mut got = vec![];
+            let mut buf = [0u8; 256];
+            let mut late_sent: Option<usize> = None;
+            let mut t_first: Option<Instant> = None;
+            while !stop2.load(std::sync::atomic::Ordering::SeqCst) {
+                let n = unsafe { libc::read(p2.master, buf.as_mut_ptr() as *mut libc::c_void, buf.len()) };
+                if n > 0 {
+                    got.extend_from_slice(&buf[..n as usize]);
+                    if got.len() >= 8 && t_first.is_none() {
+                        t_first = Some(Instant::now());
+                    }
+                } else {
+                    std::thread::sleep(Duration::from_micros(200));
+                }
+                if let (Some(t), None) = (t_first, late_sent) {
+                    if t.elapsed() >= Duration::from_millis(40) {
+                        // nothing of request 2 has been transmitted if only request 1 is here
+                        late_sent = Some(got.len() - 8);
+                        p2.write(&rtu_frame(1, &[3, 2, 0xDE, 0xAD]));
+                    }
+                }
+            }
+            (late_sent, got.len())
+        });
+        let r1 = channel.read_holding_registers(RequestParam::new(UnitId::new(1), Duration::from_millis(10)), range).await;
+        let r2 = channel.read_holding_registers(RequestParam::new(UnitId::new(1), Duration::from_millis(600)), range).await;
+        stop.store(true, std::sync::atomic::Ordering::SeqCst);
+        let (late_sent, total) = peer.join().unwrap_or((None, 0));
+        ev.count("serial_gap_requests", 2);
+        match (late_sent, &r2) {
+            (Some(0), Ok(v)) => problems.push((
+                "serial_gap:frame_received_before_transmission_became_result".into(),
+                format!("request 1 timed out ({r1:?}); its reply (0xDEAD) was written 40 ms later, when no byte of request 2 had been transmitted (300 baud: request 2 was waiting for 128 ms of silence); request 2 completed with {v:?}"),
+            )),
+            (Some(0), Err(RequestError::ResponseTimeout)) => ev.count("serial_gap_late_reply_dropped", 1),
+            (Some(0), Err(e)) => problems.push((format!("serial_gap:scenario1:{}", format!("{e:?}").split('(').next().unwrap()), format!("request 2 failed with {e:?} (request 1: {r1:?})"))),
+            // the late reply went out after request 2 had (partly) been transmitted, or never: not the case to judge
+            _ => ev.count("serial_gap_scenario1_not_reached", 1),
+        }
+        let _ = total;
+    }
+    let _ = channel.shutdown().await;
+    let _ = tokio::time::timeout(Duration::from_secs(5), jh).await;
+    problems
+}
